@@ -1330,6 +1330,12 @@ class Model:
         seeds = jax.random.split(seed, len(dists))
 
         for dist, seed in zip(dists, seeds):
+            # the ancestors may just have been drawn: bring the inputs of the
+            # distribution up to date, also if auto-update is switched off
+            input_names = [node.name for node in dist.all_input_nodes()]
+            if input_names:
+                self.update(*input_names)
+
             tfp_dist = dist.init_dist()
 
             event_shape = tfp_dist.event_shape
